@@ -69,9 +69,10 @@ def mathml(t):
 
 
 def ghk_written(t):
-    _, k, N, U = t
+    k, N, U = t[1:4]
     one = ['n', '1.0']
-    em1 = ['-', ['exp', U], one] if k in (0, 2) else ['-', one, ['exp', U]]
+    ex = ['v', t[4]] if len(t) > 4 else ['exp', U]      # the exponential may live in a helper variable e = exp(U)
+    em1 = ['-', ex, one] if k in (0, 2) else ['-', one, ex]
     return ['/', N, em1] if k in (0, 1) else ['/', em1, N]
 
 
@@ -115,7 +116,7 @@ def spec_eval(t, env, V):
     if k == 'sw':
         return ev(t[2]) if V < ev(t[1]) else ev(t[3])
     if k == 'ghk':
-        _, kk, N, U = t
+        kk, N, U = t[1:4]
         u, n = ev(U), ev(N)
         if abs(u) < mp.mpf(10) ** (-30):
             # limit: N = r * U with r the ratio of the slopes
@@ -572,6 +573,12 @@ def gen_term(r, case, sp_text=None):
         slope = 1 / Fraction(value_of(k_ast, case))
         N = U
     term = {'k': k, 'style': style, 'sp': frac_str(sp_true), 'slope': frac_str(slope)}
+    if r.random() < 0.12:
+        # the exponential itself is a helper variable: e = exp(U), term = N / (e - 1)
+        name = 'e%d' % len(case['inter'])
+        case['inter'][name] = ['exp', U]
+        term['style'] += '+expvar'
+        return ['ghk', k, N, U, name], term
     return ['ghk', k, N, U], term
 
 
